@@ -375,7 +375,7 @@ def sub(x, y, out=None, out_like=None, sizing='optimal', method='raw', **kwargs)
         precision_cast = (lambda m: np.array(m, dtype=object)) if _needs_python_int(x, y, n_frac) else (lambda m: m)
         # unsigned codes are subtracted as signed integers (they fit: the python-integer route takes 63 bits and more): a negative
         # difference must not wrap at 2**64 on its way into a holder that is wider than 64 bits
-        signed_cast = (lambda m: m.astype(np.int64)) if not x.signed and not y.signed and not _needs_python_int(x, y, n_frac) else (lambda m: m)
+        signed_cast = (lambda m: m.astype(np.int64) if m.dtype.kind == 'u' else m) if not x.signed and not y.signed and not _needs_python_int(x, y, n_frac) else (lambda m: m)     # (unsigned integer codes only: complex codes keep their parts)
         return signed_cast(x.val) * precision_cast(2**(n_frac - x.n_frac)) - signed_cast(y.val) * precision_cast(2**(n_frac - y.n_frac))
 
     if not isinstance(x, Fxp):
@@ -793,7 +793,7 @@ def prod(a, axis=None, out=None, out_like=None, sizing='optimal', method='raw', 
         if n_frac >= _n_word_max or n_bits >= 63:
             val = np.prod(np.array(x.val, dtype=object), axis=axis, **kwargs)
             return val * 2**n_shift if n_shift >= 0 else _scale_down_exact(val, -n_shift)
-        return np.prod(x.val, axis=axis, **kwargs) * 2**n_shift
+        return _rescale_raw(np.prod(x.val, axis=axis, **kwargs), n_shift)
 
     if not isinstance(a, Fxp):
         a = Fxp(a)
@@ -820,7 +820,7 @@ def dot(x, y, out=None, out_like=None, sizing='optimal', method='raw', **kwargs)
         if n_frac >= _n_word_max or n_bits >= 63 or (x.signed != y.signed and n_bits >= 53):
             val = np.dot(np.array(x.val, dtype=object), np.array(y.val, dtype=object), **kwargs)
             return val * 2**n_shift if n_shift >= 0 else _scale_down_exact(val, -n_shift)
-        return np.dot(x.val, y.val, **kwargs) * 2**n_shift
+        return _rescale_raw(np.dot(x.val, y.val, **kwargs), n_shift)      # (exact also when bits are dropped from a sum of more than 53 bits)
 
     if not isinstance(x, Fxp):
         x = Fxp(x)
@@ -849,7 +849,7 @@ def matmul(x, y, out=None, out_like=None, sizing='optimal', method='raw', **kwar
         if n_frac >= _n_word_max or n_bits >= 63 or (x.signed != y.signed and n_bits >= 53):
             val = np.matmul(np.array(x.val, dtype=object), np.array(y.val, dtype=object), **kwargs)
             return val * 2**n_shift if n_shift >= 0 else _scale_down_exact(val, -n_shift)
-        return np.matmul(x.val, y.val, **kwargs) * 2**n_shift
+        return _rescale_raw(np.matmul(x.val, y.val, **kwargs), n_shift)      # (exact also when bits are dropped from a sum of more than 53 bits)
 
     if not isinstance(x, Fxp):
         x = Fxp(x)
